@@ -383,7 +383,35 @@ func genCase(t *rapid.T) Case {
 		return Case{Kind: "guess", Text: rapid.SampledFrom([]string{`"a.b"`, `"1.5"`, `"1e5"`, `1`, `1.5`, `1e2`, `true`, `null`, `"true"`, `{`, `[`, `"."`, `x`, ``, `"e"`}).Draw(t, "lit")}
 	}
 	var sp sut.Project
-	if rapid.IntRange(0, 3).Draw(t, "graph") == 0 {
+	if rapid.IntRange(0, 5).Draw(t, "ownregs") == 0 {
+		// types that register types of their own: two or more of them bring their own, different type under
+		// one name, which the root schema itself may or may not register as well
+		texts := []string{`"x1"`, `2`, "{\n  \"k\": 1\n}", "[\n  true\n]", `"x" // {minLength: 1}`, `2.5 // {min: 1}`}
+		n := rapid.IntRange(2, 4).Draw(t, "holders")
+		var root strings.Builder
+		root.WriteString("{")
+		for i := 0; i < n; i++ {
+			name := fmt.Sprintf("@%c", 'a'+i)
+			body := rapid.SampledFrom([]string{"{\n  \"p\": @x\n}", "{\n  \"p\": [\n    @x\n  ]\n}", "@x", "{\n  \"p\": @x, // {optional: true}\n  \"q\": @y\n}"}).Draw(t, name+"body")
+			ty := sut.Named{Name: name, Text: body, Own: []sut.Named{{Name: "@x", Text: rapid.SampledFrom(texts).Draw(t, name+"x")}}}
+			if strings.Contains(body, "@y") {
+				ty.Own = append(ty.Own, sut.Named{Name: "@y", Text: rapid.SampledFrom(texts).Draw(t, name+"y")})
+			}
+			sp.Types = append(sp.Types, ty)
+			if i > 0 {
+				root.WriteString(",")
+			}
+			fmt.Fprintf(&root, "\n  \"h%d\": %s", i, name)
+		}
+		if rapid.Bool().Draw(t, "rootusesx") {
+			root.WriteString(",\n  \"direct\": @x")
+		}
+		root.WriteString("\n}")
+		sp.Root = root.String()
+		if rapid.IntRange(0, 3).Draw(t, "rootregsx") == 0 {
+			sp.Types = append(sp.Types, sut.Named{Name: "@x", Text: rapid.SampledFrom(texts).Draw(t, "rootx")})
+		}
+	} else if rapid.IntRange(0, 3).Draw(t, "graph") == 0 {
 		gp := gen.GraphProject(t)
 		seen := map[string]bool{}
 		var types []sut.Named
@@ -402,7 +430,7 @@ func genCase(t *rapid.T) Case {
 		sp = p.Text(nil)
 	}
 	// who registers what: the root everything, or every schema the types it names itself
-	sp.Nest = rapid.IntRange(0, 2).Draw(t, "nest") == 0
+	sp.Nest = rapid.IntRange(0, 2).Draw(t, "nest") == 0 && (len(sp.Types) == 0 || len(sp.Types[0].Own) == 0)
 	c := Case{Kind: "project", Project: &sp}
 	n := len(sp.Types)
 	if n >= 2 {
